@@ -27,6 +27,13 @@ def queries(tier):
             qs.append(Query(name='gc-step[ephemeron: %s]' % nm, harness='C10_heap.c', units=UNITS, unit_defs=UD, defs=d, unwind=8,
                             unwindset={'memset.0': 6, 'memset.1': 2}, remove_bodies=EXC, cap=cap, backends=['cadical', 'minisat'],
                             functions=FUNCTIONS))
+    for kr in (0, 1):
+        d = {'MODE': 5, 'K': 6, 'KEY_REACHABLE': kr}
+        if have:
+            d['HAVE_EPHEMERON_PASS'] = 1
+        qs.append(Query(name='gc-step[chain of two ephemerons, first key %s]' % ('reachable' if kr else 'unreachable'), harness='C10_heap.c',
+                        units=UNITS, unit_defs=UD, defs=d, unwind=10, unwindset={'memset.0': 6, 'memset.1': 2}, remove_bodies=EXC, cap=cap,
+                        backends=['cadical', 'minisat'], functions=FUNCTIONS))
     return qs
 
 
@@ -34,4 +41,4 @@ BOUNDS = {'heap': 'sentinel + 4 slots: root pair, ephemeron, key object, value o
           'sequence': 'sexp_mark from the root, ephemeron value pass, sexp_reset_weak_references, sexp_sweep (the body of sexp_gc without the walk over the context object)'}
 ASSUMPTIONS = R_ASSUME + ['gc.c textually included; marking starts from a root object inside the heap instead of the context (the context walk is the same sexp_mark_one code on a much larger graph)']
 OUTSIDE = ['finalizers of ports / file descriptors (close exactly once): not encoded in this tier', 'collect-and-retry on EMFILE (needs real descriptors)',
-           'weak hash tables written in Scheme', 'more than one ephemeron; chains of ephemerons']
+           'weak hash tables written in Scheme', 'more than two ephemerons']
